@@ -276,3 +276,142 @@ Proof.
   - destruct c as [ss m]. apply barrier_progress. exact Hb.
   - apply IH. destruct a as [ss m], b as [ss' m']. simpl in *. eapply balanced_step; eassumption.
 Qed.
+
+(* ---- reordering (Mazurkiewicz): a permutation that keeps the relative order of every
+        conflicting pair computes the same memory ------------------------------------------- *)
+From Coq Require Import Permutation.
+
+Definition before {A} (l : list A) (a b : A) : Prop := exists l1 l2, l = l1 ++ a :: l2 /\ In b l2.
+
+Lemma before_cons {A} (x : A) l a b : before l a b -> before (x :: l) a b.
+Proof. intros [l1 [l2 [E H]]]. exists (x :: l1), l2. subst. split; [reflexivity | exact H]. Qed.
+
+Lemma before_head {A} (x : A) l y : In y l -> before (x :: l) x y.
+Proof. intros H. exists [], l. split; [reflexivity | exact H]. Qed.
+
+Lemma before_insert {A} (q1 q2 : list A) x a b : before (q1 ++ q2) a b -> before (q1 ++ x :: q2) a b.
+Proof.
+  intros [l1 [l2 [E Hb]]]. apply app_eq_app in E as [l [[E1 E2]|[E1 E2]]].
+  - (* q1 = l1 ++ l, a :: l2 = l ++ q2 *)
+    destruct l as [|a' l'].
+    + simpl in E2. subst. rewrite app_nil_r. exists (l1 ++ [x]), l2.
+      split; [rewrite <- app_assoc; reflexivity | exact Hb].
+    + inversion E2; subst. exists l1, (l' ++ x :: q2). split.
+      * rewrite <- app_assoc. reflexivity.
+      * apply in_app_or in Hb as [Hb|Hb]; apply in_or_app; [left | right; right]; exact Hb.
+  - (* l1 = q1 ++ l, q2 = l ++ a :: l2 *)
+    subst. exists (q1 ++ x :: l), l2. split; [rewrite <- app_assoc; reflexivity | exact Hb].
+Qed.
+
+Lemma before_app_inv {A} (u v : list A) a b :
+  before (u ++ v) a b -> before u a b \/ (In a u /\ In b v) \/ before v a b.
+Proof.
+  intros [l1 [l2 [E Hb]]]. apply app_eq_app in E as [l [[E1 E2]|[E1 E2]]].
+  - destruct l as [|a' l'].
+    + simpl in E2. subst. right. right. exists [], l2. split; [reflexivity | exact Hb].
+    + inversion E2; subst. apply in_app_or in Hb as [Hb|Hb].
+      * left. exists l1, l'. split; [reflexivity | exact Hb].
+      * right. left. split; [apply in_or_app; right; left; reflexivity | exact Hb].
+  - subst. right. right. exists l, l2. split; [reflexivity | exact Hb].
+Qed.
+
+Lemma before_in {A} (l : list A) a b : before l a b -> In a l /\ In b l.
+Proof.
+  intros [l1 [l2 [E Hb]]]. subst. split; apply in_or_app; right; [left; reflexivity | right; exact Hb].
+Qed.
+
+Lemma before_flat_map_inv {A B} (f : A -> list B) l a b :
+  before (flat_map f l) a b ->
+  (exists x y, before l x y /\ In a (f x) /\ In b (f y)) \/ (exists x, In x l /\ before (f x) a b).
+Proof.
+  induction l as [|x r IH]; simpl; intros H.
+  - destruct H as [l1 [l2 [E _]]]. destruct l1; discriminate.
+  - apply before_app_inv in H as [H|[[Ha Hb]|H]].
+    + right. exists x. split; [left; reflexivity | exact H].
+    + left. apply in_flat_map in Hb as [y [Hy Hby]]. exists x, y.
+      split; [apply before_head; exact Hy | split; assumption].
+    + destruct (IH H) as [[x' [y' [Hb' [Ha' Hb'']]]]|[x' [Hx' Hb']]].
+      * left. exists x', y'. split; [apply before_cons; exact Hb' | split; assumption].
+      * right. exists x'. split; [right; exact Hx' | exact Hb'].
+Qed.
+
+Lemma before_map_inv {A B} (g : A -> B) l u v :
+  before (map g l) u v -> exists x y, before l x y /\ u = g x /\ v = g y.
+Proof.
+  intros [l1 [l2 [E Hb]]]. apply map_eq_app in E as [m1 [m2 [E [E1 E2]]]].
+  destruct m2 as [|x m2']; [discriminate|]. simpl in E2. inversion E2; subst.
+  apply in_map_iff in Hb as [y [Ey Hy]]. exists x, y. split; [|split; [reflexivity | symmetry; exact Ey]].
+  exists m1, m2'. split; [reflexivity | exact Hy].
+Qed.
+
+Lemma before_seq s m a b : before (seq s m) a b -> (a < b)%nat.
+Proof.
+  revert s. induction m as [|m IH]; intros s [l1 [l2 [E Hb]]].
+  - destruct l1; discriminate.
+  - simpl in E. destruct l1 as [|y l1'].
+    + inversion E; subst. apply in_seq in Hb. lia.
+    + injection E as E0 E1. apply (IH (S s)). exists l1', l2. split; [exact E1 | exact Hb].
+Qed.
+
+Lemma before_NoDup_neq {A} (l : list A) a b : NoDup l -> before l a b -> a <> b.
+Proof.
+  intros Hn [l1 [l2 [E Hb]]] <-. subst. apply NoDup_remove_2 in Hn. apply Hn. apply in_or_app. right. exact Hb.
+Qed.
+
+Lemma NoDup_split_unique {A} (b : A) : forall x1 y1 x2 y2,
+  NoDup (x1 ++ b :: y1) -> x1 ++ b :: y1 = x2 ++ b :: y2 -> x1 = x2 /\ y1 = y2.
+Proof.
+  induction x1 as [|c x1 IH]; intros y1 x2 y2 Hn E; destruct x2 as [|d x2]; simpl in *.
+  - inversion E. split; reflexivity.
+  - inversion E; subst. inversion Hn; subst. exfalso. apply H1. apply in_or_app. right. left. reflexivity.
+  - inversion E; subst. inversion Hn; subst. exfalso. apply H1. apply in_or_app. right. left. reflexivity.
+  - inversion E; subst. inversion Hn; subst. destruct (IH y1 x2 y2 H3 H1) as [-> ->]. split; reflexivity.
+Qed.
+
+Lemma before_antisym {A} (l : list A) a b : NoDup l -> before l a b -> before l b a -> False.
+Proof.
+  intros Hn [l1 [l2 [E Hb]]] [m1 [m2 [E' Ha]]].
+  apply in_split in Hb as [u [v ->]].
+  assert (E2 : (l1 ++ a :: u) ++ b :: v = m1 ++ b :: m2).
+  { rewrite <- app_assoc. simpl. rewrite <- E. exact E'. }
+  assert (Hn2 : NoDup ((l1 ++ a :: u) ++ b :: v)).
+  { rewrite <- app_assoc. simpl. rewrite <- E. exact Hn. }
+  destruct (NoDup_split_unique b _ _ _ _ Hn2 E2) as [_ <-].
+  subst l. apply NoDup_remove_2 in Hn. apply Hn.
+  apply in_or_app. right. apply in_or_app. right. right. exact Ha.
+Qed.
+
+Theorem reorder_equiv : forall p q m, NoDup p -> Permutation p q ->
+  (forall a b, before p a b -> before q b a -> conflictb a b = false) ->
+  meq (exec q m) (exec p m).
+Proof.
+  induction p as [|x p' IH]; intros q m Hn Hp Hc.
+  - apply Permutation_nil in Hp. subst. apply meq_refl.
+  - assert (Hx : In x q) by (eapply Permutation_in; [exact Hp | left; reflexivity]).
+    apply in_split in Hx as [q1 [q2 Eq]]. subst q.
+    assert (Hnq : NoDup (q1 ++ x :: q2)) by (eapply Permutation_NoDup; eassumption).
+    assert (Hp' : Permutation p' (q1 ++ q2)) by (eapply Permutation_cons_app_inv; exact Hp).
+    assert (Hq1 : forall y, In y q1 -> conflictb x y = false).
+    { intros y Hy. apply Hc.
+      - apply before_head. apply (Permutation_in y (Permutation_sym Hp')). apply in_or_app. left. exact Hy.
+      - apply in_split in Hy as [a [b ->]]. exists a, (b ++ x :: q2).
+        split; [rewrite <- app_assoc; reflexivity | apply in_or_app; right; left; reflexivity]. }
+    replace (q1 ++ x :: q2) with ((q1 ++ [x]) ++ q2) by (rewrite <- app_assoc; reflexivity).
+    rewrite exec_app. eapply meq_trans.
+    { apply exec_meq. apply exec_commute_list. exact Hq1. }
+    change (exec (x :: p') m) with (exec p' (exec_op x m)).
+    change (exec (x :: q1) m) with (exec q1 (exec_op x m)).
+    rewrite <- exec_app. apply IH.
+    + inversion Hn; assumption.
+    + exact Hp'.
+    + intros a b Hab Hba. apply Hc; [apply before_cons; exact Hab | apply before_insert; exact Hba].
+Qed.
+
+Lemma phase_drfb_intro p :
+  (forall a b, before p a b -> o_core a <> o_core b -> conflictb a b = false) -> phase_drfb p = true.
+Proof.
+  induction p as [|x r IH]; intros H; simpl; [reflexivity|]. apply andb_true_iff. split.
+  - apply forallb_forall. intros b Hb. destruct (o_core x =? o_core b) eqn:E; [reflexivity|].
+    apply Z.eqb_neq in E. simpl. rewrite (H x b (before_head x r b Hb) E). reflexivity.
+  - apply IH. intros a b Hab. apply H. apply before_cons. exact Hab.
+Qed.
